@@ -492,6 +492,9 @@ func plants() []*plant {
 	ex("arg-multiple-star", "log(*[1], \x01*[2])", "RArgMultipleStar")
 	ex("arg-256-positional", manyArgs(false), "RArgTooManyPos")
 	ex("arg-256-named", manyArgs(true), "RArgTooManyNamed")
+	// exactly 255 of each is allowed
+	ps = append(ps, &plant{Kind: "arg-255-positional", IsExpr: true, Expr: strings.Replace(manyArgs(false), "0, 0", "0", 1), Expect: func([6]bool, string) []string { return nil }})
+	ps = append(ps, &plant{Kind: "arg-255-named", IsExpr: true, Expr: strings.Replace(manyArgs(true), "k0=0, ", "", 1), Expect: func([6]bool, string) []string { return nil }})
 	// lambda parameter lists
 	ex("lambda-dup", "(lambda a, \x01a: 1)", "RParDuplicate")
 	ex("lambda-dup-default", "(lambda a, a\x01=1: 1)", "RParDuplicate")
@@ -567,6 +570,9 @@ func plants() []*plant {
 	st("def-req-after-opt", []string{"top", "fn"}, []string{"def dd(a=1, \x01b):", "pass"}, always("RParReqAfterOptional"))
 	st("def-bare-star", []string{"top", "fn"}, []string{"def dd(a, \x01*):", "pass"}, always("RParBareStar"))
 	st("def-bare-star-kwargs", []string{"top", "fn"}, []string{"def dd(a, \x01*, **k):", "pass"}, always("RParBareStar"))
+	noErr := func([6]bool, string) []string { return nil }
+	st("def-kwonly-required-after-optional", []string{"top", "fn"}, []string{"def \x01dd(a=1, *b, c):", "pass"}, noErr)
+	st("def-bare-star-kwonly-required", []string{"top", "fn"}, []string{"def \x01dd(a=1, *, c, d=2, **e):", "pass"}, noErr)
 	st("def-multiple-star", []string{"top", "fn"}, []string{"def dd(*a, \x01*, b):", "pass"}, always("RParMultipleStar"))
 	gr := func(rule string) func([6]bool, string) []string {
 		return func(o [6]bool, _ string) []string {
@@ -603,6 +609,27 @@ func plants() []*plant {
 		}
 		return nil
 	})
+	none := func(o [6]bool, _ string) []string { return nil }
+	// scoping: what is visible where
+	st("comp-var-leak", []string{"top", "fn"}, []string{"log([cv for cv in [1]])", "log(\x01cv)"}, always("RUndefined"))
+	st("undefined-twice", []string{"fn", "fn-for", "fn-def"}, []string{"log(\x01nosuch2)", "log(nosuch2, [nosuch2 for q9 in [1]])"}, always("RUndefined"))
+	st("set-shadowed-by-parameter", []string{"top", "fn"}, []string{"def sf(set):", "return \x01set([1])"}, none)
+	st("set-shadowed-by-local", []string{"fn"}, []string{"set = len", "log(\x01set([1]))"}, none)
+	st("local-forward-use", []string{"fn", "fn-if"}, []string{"log(\x01lv9)", "lv9 = 1"}, none)
+	st("lambda-param-shadows", []string{"top", "fn"}, []string{"log((lambda nosuch3: \x01nosuch3)(1))"}, none)
+	st("comp-later-clause-var", []string{"top", "fn"}, []string{"log([1 for q1 in [1] if \x01q2 for q2 in [2]])"}, none)
+	st("load-in-toplevel-if", []string{"top"}, []string{"if 1:", "\x01load(\"m.star\", \"zz\")"}, func(o [6]bool, _ string) []string {
+		if o[oTLC] {
+			return []string{"RLoadInConditional"}
+		}
+		return []string{"@enclosing:RIfToplevel", "RLoadInConditional"}
+	})
+	st("load-in-toplevel-for", []string{"top"}, []string{"for tl2 in []:", "\x01load(\"m.star\", \"zz\")"}, func(o [6]bool, _ string) []string {
+		if o[oTLC] {
+			return []string{"RLoadInLoop"}
+		}
+		return []string{"@enclosing:RForToplevel", "RLoadInLoop"}
+	})
 	st("use-before-def-in-function", []string{"fn"}, []string{"log(\x01later2)", "---"}, func(o [6]bool, _ string) []string { return nil })
 	return ps
 }
@@ -616,7 +643,7 @@ type program struct {
 	plant  *plant
 }
 
-func (g *gen) program(p *plant) *program {
+func (g *gen) program(p *plant, round int) *program {
 	w := &writer{}
 	sc := &scope{}
 	out := &program{Kind: "valid", plant: p}
@@ -626,7 +653,7 @@ func (g *gen) program(p *plant) *program {
 		if p.IsExpr {
 			g.plant = p.Expr
 		} else {
-			where = p.Where[g.pick(len(p.Where))]
+			where = p.Where[round%len(p.Where)]
 		}
 	}
 	out.Where = where
@@ -863,10 +890,13 @@ func resolveMain(argv []string) {
 	for i := 0; i < *nprog; i++ {
 		g := &gen{r: r.Split()}
 		var p *plant
+		round := 0
 		if i%8 != 0 { // one in eight programs is left valid
-			p = pl[(i+int(r.Intn(3)))%len(pl)]
+			k := i - i/8 - 1 // index among the planted programs: every (plant, site) pair is visited in turn
+			p = pl[k%len(pl)]
+			round = k / len(pl)
 		}
-		pr := g.program(p)
+		pr := g.program(p, round)
 		f, perr := (&syntax.FileOptions{}).Parse("p.star", pr.Src, 0)
 		out := &progOut{Kind: "prog", Plant: pr.Kind, Where: pr.Where, Marker: pr.Marker, Src: pr.Src, Problems: []string{}}
 		if perr != nil {
@@ -898,6 +928,9 @@ func resolveMain(argv []string) {
 				want = p.Expect(o, pr.Where)
 			}
 			key := pr.Kind
+			if pr.Where != "" {
+				key += "@" + pr.Where
+			}
 			if len(res.Errs) > 0 {
 				key += ":rejected"
 			} else {
@@ -912,18 +945,24 @@ func resolveMain(argv []string) {
 			case len(want) > 0 && res.Accepted:
 				out.Problems = append(out.Problems, fmt.Sprintf("opts=%06b: accepted, but %v applies at %d (effects: %d)", b, want, pr.Marker, res.Effects))
 			case len(want) > 0:
-				if res.Errs[0].Rule != want[0] || res.Errs[0].Pos != pr.Marker {
-					out.Problems = append(out.Problems, fmt.Sprintf("opts=%06b: first error %v, expected %s at %d", b, res.Errs[0], want[0], pr.Marker))
+				posOf := func(w string) (string, int) {
+					if strings.HasPrefix(w, "@enclosing:") {
+						return strings.TrimPrefix(w, "@enclosing:"), pr.Marker - 1000 - 2
+					}
+					return w, pr.Marker
+				}
+				w0, p0 := posOf(want[0])
+				if res.Errs[0].Rule != w0 || res.Errs[0].Pos != p0 {
+					out.Problems = append(out.Problems, fmt.Sprintf("opts=%06b: first error %v, expected %s at %d", b, res.Errs[0], w0, p0))
 				}
 				got := map[string]bool{}
 				for _, e := range res.Errs {
-					if e.Pos == pr.Marker {
-						got[e.Rule] = true
-					}
+					got[fmt.Sprintf("%s@%d", e.Rule, e.Pos)] = true
 				}
 				for _, wr := range want {
-					if !got[wr] {
-						out.Problems = append(out.Problems, fmt.Sprintf("opts=%06b: %s not reported at %d: %v", b, wr, pr.Marker, res.Errs))
+					wn, wp := posOf(wr)
+					if !got[fmt.Sprintf("%s@%d", wn, wp)] {
+						out.Problems = append(out.Problems, fmt.Sprintf("opts=%06b: %s not reported at %d: %v", b, wn, wp, res.Errs))
 					}
 				}
 				if len(res.Errs) != len(want) {
